@@ -68,7 +68,7 @@ def jobs(tier):
     out = []
     for mode in ('default', 'values', 'freq', 'random', 'random-wide', 'random-upto0'):
         for rep in (False, True):
-            for sz in range(1, b['feature'][0] + 1):
+            for sz in range(1, (b['feature'][0] if mode not in ('random-wide', 'random-upto0') else 2) + 1):
                 for cd in range(1, b['feature'][1] + 1):
                     for lw in (0, 1):
                         out.append({'cond': 'feature', 'mode': mode, 'rep': rep, 'pins': {'size': sz, 'card': cd, 'low': lw}, 'weight': (cd + 1) ** sz * 6 ** sz, 'label': f'{mode},ensure_rep={rep},size={sz},card={cd},low={lw}'})
